@@ -66,6 +66,15 @@ func c05Inputs() []c05Input {
 		{"diamond", absBook{{"top", []absIng{{"left", 1}, {"right", 2}}}, {"left", []absIng{{"base", 1}}}, {"right", []absIng{{"base", 2}, {"fat", 1}}}, {"base", []absIng{{"cal", 1}}}}, 3},
 		{"two-chains", absBook{{"a1", []absIng{{"a2", 1}}}, {"a2", []absIng{{"a3", 1}}}, {"a3", []absIng{{"cal", 1}}}, {"b1", []absIng{{"b2", 1}, {"a3", 1}}}, {"b2", []absIng{{"fat", 1}}}}, 3},
 	}
+	// quantities chosen so that exact sums sit on a rounding boundary of the printed precision: a report that adds
+	// them up in map iteration order prints 10.54 in one run and 10.55 in another (0.5 x 3.01 + 0.5 x 5.03 + 0.5 x 13.05)
+	{
+		book := absBook{{"a/x", []absIng{{"cal", 3.01}, {"fat", 0.1}}}, {"b/y", []absIng{{"cal", 5.03}, {"fat", 0.2}}}, {"c/z", []absIng{{"cal", 13.05}, {"fat", 0.3}}}, {"d/w", []absIng{{"cal", 1e-3}, {"fat", 1e16}}}, {"e/v", []absIng{{"fat", -1e16}, {"cal", 0.005}}}}
+		lg1 := absLog{{Date: "2021/01/24", Entries: []absIng{{"a/x", 0.5}, {"b/y", 0.5}, {"c/z", 0.5}}}}
+		lg2 := absLog{{Date: "2021/01/24", Entries: []absIng{{"a/x", 0.5}, {"d/w", 1}, {"u1", 0.1}}}, {Date: "2021/01/25", Entries: []absIng{{"b/y", 0.5}, {"e/v", 1}, {"u2", 0.2}}}, {Date: "2021/01/26", Entries: []absIng{{"c/z", 0.5}, {"u3", 0.3}, {"u1", 0.2}}}}
+		out = append(out, c05Input{Name: "half-cent-boundary-one-day", Book: renderBook(book), Log: renderLog(lg1)})
+		out = append(out, c05Input{Name: "half-cent-boundary-three-days-huge-cancelling-terms", Book: renderBook(book), Log: renderLog(lg2)})
+	}
 	for _, sh := range shapes {
 		for _, extraDepth := range []int{0, 1} {
 			lg := absLog{{Date: "2021/01/24", Entries: []absIng{{sh.book[0].Name, 1}, {"u1", 2}}}, {Date: "2021/01/25", Entries: []absIng{{sh.book[1].Name, 2}, {"u2", 2}}}}
